@@ -44,7 +44,10 @@ cd /verif
 git -C /repo apply "$SRC/patch.diff" || exit 2
 RESULTS=""
 for C in $CHECKS; do
+    # evidence and replays committed in /verif come from the unchanged tree only
+    cp "evidence/$C.json" "/tmp/seed-evidence-$C.json" 2>/dev/null
     ./check "$C" quick >/tmp/seed-check-$C.out 2>&1; RC=$?
+    cp "/tmp/seed-evidence-$C.json" "evidence/$C.json" 2>/dev/null; rm -f "/tmp/seed-evidence-$C.json"
     SIGS=$(grep -E "^  signature:" /tmp/seed-check-$C.out | sed 's/^  signature: //' | head -5 | tr '\n' ';')
     echo "[$SID] check $C: exit $RC  $SIGS"
     RESULTS="$RESULTS$C"$'\x1f'"$RC"$'\x1f'"$SIGS"$'\x1e'
